@@ -34,7 +34,7 @@ From PV Require Import Model.Obj Model.XrefTab Model.Loader Model.LoaderBytes Sp
 From PV Require Import Proofs.XrefBase Proofs.ObjStream Proofs.ObjSpell Proofs.Loader Proofs.LoaderObjs Proofs.LoaderMain Proofs.LoaderDoc
      Proofs.LoaderBytesBase Proofs.LoaderBytesObj Proofs.LoaderBytesSect Proofs.LoaderBytesMain Proofs.LoaderBytesEx
      Proofs.XrefStm Proofs.LoaderBytesXstm Proofs.LoaderBytesXstmEx Proofs.LoaderBytesOstm Proofs.LoaderBytesOstmEx
-     Proofs.LoaderBytesRev Proofs.LoaderBytesHybrid Proofs.LoaderBytesHybridEx.
+     Proofs.LoaderBytesRev Proofs.LoaderBytesComp Proofs.LoaderBytesCompEx Proofs.LoaderBytesHybrid Proofs.LoaderBytesHybridEx.
 From PV Require Import Spec.RenderXrefStm Spec.ObjStmEnc Spec.RenderObjStm Spec.RenderHybrid.
 Close Scope N_scope.
 
@@ -157,6 +157,21 @@ Theorem C03b_representations_nonvacuous :
   wf_doc ex_doc /\ wf_layout ex_doc ex_layout /\ wf_xlayout ex_doc ex_xlayout /\ wf_hylayout ex_doc ex_hylayout.
 Proof. exact ex_representations. Qed.
 
+(* COMPRESSION IS TRANSPARENT: a file that keeps part of its objects in (unfiltered) object streams and a classic file
+   that writes all those objects directly load to contexts that agree on every identifier except the containers' own *)
+Theorem C03_bytes_compression_transparent : forall rel1 rel2 objs stms root X l,
+  wf_olayout rel1 objs stms root X ->
+  wf_doc (mk_cdoc (objs ++ compressed stms) root) -> wf_layout (mk_cdoc (objs ++ compressed stms) root) l ->
+  exists c1 c2,
+    load_bytes rel1 (render_objstm objs stms X) = Loaded c1 root /\
+    load_bytes rel2 (render_classic (objs ++ compressed stms) l) = Loaded c2 root /\
+    forall id, (forall o, In o stms -> id <> os_id o) -> ctx_get c1 id = ctx_get c2 id.
+Proof. exact load_bytes_compression_transparent. Qed.
+
+Theorem C03b_compression_nonvacuous : forall rel,
+  wf_olayout rel ex_oobjs [ex_ostm] (1, 0)%N ex_olayout /\ wf_doc ex_cdoc /\ wf_layout ex_cdoc ex_clayout.
+Proof. exact ex_compression_hyps. Qed.
+
 (* ---------- the per-offset facts (each for arbitrary surrounding bytes) ---------- *)
 (* the header scan skips garbage that does not contain the magic; HeaderP cannot fail behind it *)
 Theorem C03b_magic_found : forall g r,
@@ -221,6 +236,8 @@ Print Assumptions C03b_objstm_example_computed.
 Print Assumptions C03_bytes_hybrid.
 Print Assumptions C03_bytes_representation_independent.
 Print Assumptions C03b_representations_nonvacuous.
+Print Assumptions C03_bytes_compression_transparent.
+Print Assumptions C03b_compression_nonvacuous.
 Print Assumptions C03b_hybrid_is_layout.
 Print Assumptions C03b_hybrid_nonvacuous.
 Print Assumptions C03b_hybrid_example_computed.
